@@ -266,6 +266,7 @@ def replay(rp):
         print('real : ' + real)
         print('oracle now: %s' % (linkworld.oracle(case, real) or linkworld.oracle_closed(case, real),))
         print('_connect_proxy closes its socket on failure (probe): %s' % linkworld.proxy_closes_on_failure())
+        print('socket in blocking mode before the proxy negotiation (probe): %s' % linkworld.blocks_before_tunnel())
         if not case.get('wrap_fail_call') and not case['url'].startswith('wss') or case.get('http') or case.get('https'):
             print('model line: ' + linkworld.link_line(case))
         return 0
